@@ -3,7 +3,8 @@
     the binding with the binding *expected* for the declaration: field order,
     Go field names (utils.ToCamelCase of the schema names), Go kinds, mode-bit
     conditionals, constructor ids, the switch over the constructors of a sum
-    type.  Definitions only; soundness is in Proofs/TlMatchP.v. *)
+    type.  Definitions only; soundness is in Proofs/TlMatchP.v, TlSoundP.v, TlApiP.v
+    (if [matches_all S F B] then the model of B equals the wire-format spec of S). *)
 From Coq Require Import String Ascii List NArith Arith Bool.
 From Tongo Require Import Lib.Bits Lib.Res Spec.TlWire Model.Tl.
 Import ListNotations.
